@@ -381,5 +381,46 @@ def rule_d7(repo):
     return res
 
 
+HANDLERS = {'is_tconst': 'extend_type', 'is_constant': 'extend_constant', 'is_theorem': 'add_theorem', 'is_attribute': 'extend_attribute',
+            'is_overload': 'add_overload_const'}
+
+
+def rule_d8(repo):
+    """Freshness of a defined constant is enforced in one place: add_term_sig raises "Constant already
+    exists".  Definition items rely on it (Definition.parse declares the constant and lets the theory refuse a second
+    one).  Every extension must therefore reach the handler of its kind whenever the kind test holds - a guard that
+    skips extend_constant for a constant that "is already there at this type" lets a second definition install its
+    defining theorem over the first: c <--> true and c <--> false give |- false."""
+    from ..cfg import cfg_of
+    res = RuleResult('C11.D8', 'every extension reaches the handler of its kind unconditionally (the handler, not the caller, decides about duplicates)', floor=8)
+    for fn in ('unchecked_extend', 'checked_extend'):
+        f = repo.func('kernel/theory.py', 'Theory.' + fn)
+        cfg = cfg_of(f.node)
+        it = [n for n in cfg.nodes if n.kind == 'iter']
+        need(it, 'Theory.%s: loop over the extensions not found' % fn)
+        for t in cfg.test_nodes():
+            if not (isinstance(t.ast, ast.Call) and isinstance(t.ast.func, ast.Attribute) and t.ast.func.attr in HANDLERS and not t.ast.args):
+                continue
+            h = HANDLERS[t.ast.func.attr]
+            calls = [n for n in cfg.nodes if n.kind == 'stmt' and n.ast is not None and not isinstance(n.ast, (ast.If, ast.For, ast.While, ast.Try)) and
+                     any(isinstance(c, ast.Call) and call_attr(c) == h for c in ast.walk(n.ast))]
+            start = [b for b, l in t.succ if l == 'true']
+            region = cfg.reach_from(start, skip_nodes=it)
+            calls = [c for c in calls if c.id in region]
+            if not calls:
+                res.add('kernel/theory.py :: Theory.%s :: %s -> %s' % (fn, t.ast.func.attr, h), False,
+                        'no call of %s in the branch for %s' % (h, t.ast.func.attr), '%s:%d' % ('kernel/theory.py', t.lineno))
+                continue
+            # every path from the kind test to the next extension (or the end) passes the handler, unless it raises
+            r = cfg.reach_from(start, skip_nodes=calls)
+            skipped = it[0].id in r or cfg.exit.id in r
+            res.add('kernel/theory.py :: Theory.%s :: %s -> %s' % (fn, t.ast.func.attr, h), not skipped,
+                    'the handler is reached on every path that does not raise' if not skipped else
+                    'a path from `%s` goes on to the next extension without calling %s: whether the extension takes effect is decided here, '
+                    'not by the handler (a second definition of a constant skips the "already exists" error and overwrites the defining theorem)' % (
+                        src(t.ast, 30), h), 'kernel/theory.py:%d' % t.lineno)
+    return res
+
+
 def rules(repo):
-    return [rule_d1(repo), rule_d2(repo), rule_d3(repo), rule_d4(repo), rule_d5(repo), rule_d6(repo), rule_d7(repo)]
+    return [rule_d1(repo), rule_d2(repo), rule_d3(repo), rule_d4(repo), rule_d5(repo), rule_d6(repo), rule_d7(repo), rule_d8(repo)]
